@@ -22,8 +22,33 @@ GROUP = dict(
     rlimit=100,
     uses=_c01['uses'],
     canary=_c01['canary'],
+    # vacuity guards: the hypotheses of the theorems with `ensures false` -- must be REJECTED (and lemma_c02_witness PROVES that
+    # spelling_ok holds of a concrete spelling using every freedom at once)
+    vacuity='''
+pub proof fn verif_vacuity_c02_plain_must_fail<T: FromStr + PurlShape>(sp: Spelling, r: Result<GenericPurl<T>, <T as PurlShape>::Error>)
+    where <T as PurlShape>::Error: From<<T as FromStr>::Err>
+    requires plain_shape::<T>(), spelling_ok(sp), parse_post::<T>(spelled(sp), r),
+    ensures false
+{ }
+pub proof fn verif_vacuity_c02_typed_must_fail(sp: Spelling, t: PackageType, r: Result<GenericPurl<PackageType>, PackageError>)
+    requires spelling_ok(sp), sp_type(sp) == type_name(t), t == PackageType::Maven ==> sp_ns(sp).len() > 0, parse_post::<PackageType>(spelled(sp), r),
+    ensures false
+{ }
+pub proof fn verif_vacuity_c02_same_must_fail<T: FromStr + PurlShape>(s1: Spelling, s2: Spelling, r1: Result<GenericPurl<T>, <T as PurlShape>::Error>, r2: Result<GenericPurl<T>, <T as PurlShape>::Error>)
+    where <T as PurlShape>::Error: From<<T as FromStr>::Err>
+    requires plain_shape::<T>(), spelling_ok(s1), spelling_ok(s2), same_components(s1, s2), parse_post::<T>(spelled(s1), r1), parse_post::<T>(spelled(s2), r2),
+    ensures false
+{ }
+pub proof fn verif_vacuity_c02_raw_must_fail(w: Raw)
+    requires raw_ok(w)
+    ensures false
+{ }
+''',
     units=_units + [
+        dict(id='theory.qualuniq', kind='raw', text=_c.lemmas_contract_only(_c.theory_text('qualuniq.rs'), 'qual')),
         dict(id='theory.c02a', kind='raw', text=_c.theory_text('c02a.rs')),
         dict(id='theory.c02b', kind='raw', text=_c.theory_text('c02b.rs')),
+        dict(id='theory.c02c', kind='raw', text=_c.theory_text('c02c.rs')),
+        dict(id='theory.c02w', kind='raw', text=_c.theory_text('c02w.rs')),
     ],
 )
